@@ -72,6 +72,19 @@ func (w *World) Snapshot() []string {
 	return out
 }
 
+// renderDecoy renders a fixed table of a different shape (fresh each time).
+func (w *World) renderDecoy(st *Step) {
+	defer func() { recover() }()
+	d := NewWorld(0, "", nil, nil)
+	d.Tab.AddHeaders("decoy header one", "h2", "third")
+	d.Tab.AddRowItems("a much longer decoy cell than anything else", 1, true)
+	d.Tab.AddSeparator()
+	d.Tab.AddRowItems("x\ny", "z")
+	d.Log = NewEventLog(false)
+	d.Render(RenderSpec{Format: pick(NFormats, st.A), Deco: pick(NDecoChoices, st.B), Via: ViaFresh}, nil)
+	w.probe("decoy_table_rendered_in_between")
+}
+
 func diffSnap(a, b []string) string {
 	for i := 0; i < len(a) || i < len(b); i++ {
 		x, y := "<absent>", "<absent>"
@@ -97,7 +110,7 @@ func effectiveKey(spec RenderSpec) string {
 		if spec.Via == ViaPkg {
 			name = "utf8-heavy"
 		}
-		if (spec.Via == ViaAuto || spec.Via == ViaAutoFn) && name == "custom" {
+		if (spec.Via == ViaAuto || spec.Via == ViaAutoFn) && (name == "custom" || name == "derived") {
 			name = "utf8-heavy"
 		}
 		return "text/" + name
@@ -186,6 +199,7 @@ func (engC14) Gen(r *Rng, s *Script, idx int, tier string) {
 		focus = r.Intn(NFormats)
 	}
 	autoFocus := r.Chance(1, 5)
+	family := !autoFocus && r.Chance(1, 6)
 	for i := 0; i < nr; i++ {
 		st := genRenderStep(r, faultPct)
 		if focus >= 0 && r.Chance(1, 2) {
@@ -193,6 +207,18 @@ func (engC14) Gen(r *Rng, s *Script, idx int, tier string) {
 		}
 		if r.Chance(1, 3) {
 			st.C = ViaReused
+		}
+		if family {
+			// text renders under decorations that are value copies of one another
+			st.A, st.B = FmtText, []int{4, 8, 5, 8}[r.Intn(4)]
+			if st.C == ViaPkg || st.C == ViaAuto || st.C == ViaAutoFn {
+				st.C = ViaFresh
+			}
+			if r.Chance(1, 3) {
+				s.Steps = append(s.Steps, Step{Op: "decoyRender", A: FmtText, B: []int{4, 8, 5}[r.Intn(3)]})
+			}
+		} else if r.Chance(1, 8) {
+			s.Steps = append(s.Steps, Step{Op: "decoyRender", A: r.Intn(NFormats), B: r.Intn(NDecoChoices)})
 		}
 		if autoFocus && r.Chance(1, 2) {
 			// the auto routes, alternating the bare "texttable" style with named decorations
@@ -218,6 +244,12 @@ func (engC14) Exec(s *Script, keepLog bool) *Result {
 	compared := 0
 	keys := newHasher()
 	runSteps(w, s.Steps, res, func(i int, st *Step) *Violation {
+		if st.Op == "decoyRender" {
+			// another table of another shape is rendered in between, in the same
+			// process, through the same decorations: nothing of that may show here
+			w.renderDecoy(st)
+			return nil
+		}
 		if st.Op != "render" {
 			if snap0 != nil {
 				return nil // building after the first render is not part of this property
